@@ -239,39 +239,62 @@ def main():
             desc = f'{vkw} on {node.src} vs none'
             witness = dict(mode=mode, hint=node.src, options=vkw)
             cx_opt = hints.CX0
-        try:
-            sa = prep(W, idx, mode, node.src, node.hint(), cs_opt)
-        except BeartypeConfException:
-            W.count('conf_rejected_by_beartype')
-            continue
-        except Exception as e:   # noqa
-            W.violation(f'{mode}:error:' + engine.exc_site(e), f'building configuration {cs_opt.kw!r}: {type(e).__name__}: {short(e, 300)}',
-                        'pair', idx, witness)
-            continue
-        sb = prep(W, idx, mode, hand.src, hand.hint(), cs_hand) if sa is not None else None
-        if sa is None or sb is None:
-            continue
-        # objects from both sides of the difference
-        objs = []
-        for n_, cx_ in ((hand, hints.CX0), (node, cx_opt), (node, hints.CX0)):
-            for gen in ('gen_in', 'gen_bad'):
+        def run_pair(node, hand, cs_opt, cs_hand, desc, witness, cx_opt, changed):
+            try:
+                sa = prep(W, idx, mode, node.src, node.hint(), cs_opt)
+            except BeartypeConfException:
+                W.count('conf_rejected_by_beartype')
+                return
+            except Exception as e:   # noqa
+                W.violation(f'{mode}:error:' + engine.exc_site(e), f'building configuration {cs_opt.kw!r}: {type(e).__name__}: {short(e, 300)}',
+                            'pair', idx, witness)
+                return
+            sb = prep(W, idx, mode, hand.src, hand.hint(), cs_hand) if sa is not None else None
+            if sa is None or sb is None:
+                return
+            # objects from both sides of the difference
+            objs = []
+            for n_, cx_ in ((hand, hints.CX0), (node, cx_opt), (node, hints.CX0)):
+                for gen in ('gen_in', 'gen_bad'):
+                    try:
+                        objs.append(getattr(n_, gen)(rng, cx_))
+                    except hints.CantGen:
+                        pass
+            objs.append(rng.choice(hints.pool()))
+            if isinstance(hand, hints.SeqH):
                 try:
-                    objs.append(getattr(n_, gen)(rng, cx_))
+                    objs.append(hand.gen_one_bad(rng)[0])
                 except hints.CantGen:
                     pass
-        objs.append(rng.choice(hints.pool()))
-        if isinstance(hand, hints.SeqH):
-            try:
-                objs.append(hand.gen_one_bad(rng)[0])
-            except hints.CantGen:
-                pass
-        W.evaluate((mode, desc) if changed else None, n=len(objs))
-        W.count(f'{mode}.pairs')
-        if changed:
-            W.count(f'{mode}.pairs_where_rewriting_changed_hint')
-        if len(W.samples) < 4 and changed and node.depth() >= 2 and mode != 'viol':
-            W.sample(dict(witness, objects=[short(o, 60) for o in objs[:3]]))
-        compare(W, mode, idx, rng, sa, sb, desc, objs, draw_cap, witness)
+            W.evaluate((mode, desc) if changed else None, n=len(objs))
+            W.count(f'{mode}.pairs')
+            if changed:
+                W.count(f'{mode}.pairs_where_rewriting_changed_hint')
+            if len(W.samples) < 4 and changed and node.depth() >= 2 and mode != 'viol':
+                W.sample(dict(witness, objects=[short(o, 60) for o in objs[:3]]))
+            compare(W, mode, idx, rng, sa, sb, desc, objs, draw_cap, witness)
+
+        run_pair(node, hand, cs_opt, cs_hand, desc, witness, cx_opt, changed)
+        if mode == 'override':
+            # the same root hint once more under a configuration overriding the same keys differently (and then under
+            # the first configuration again): code generated for one set of overrides must not be served to another
+            others = [c for c in ('bytes', 'complex', 'D', 'frozenset') if all(c not in k and k not in c for k in mapping)
+                      and c not in node.src]
+            if others:
+                alt = rng.choice(others)
+                mapping2 = {k: Cls(alt) for k in mapping}
+                try:
+                    hand2 = hints.rebuild(node, lambda n: mapping2.get(n.src))
+                    hand2.hint()
+                    pairs2 = tuple(sorted((k, v.src) for k, v in mapping2.items()))
+                    cs2 = engine.ConfSpec(hint_overrides=pairs2, **base_kw)
+                    W.count('override.second_configuration_on_same_hint')
+                    run_pair(node, hand2, cs2, engine.ConfSpec(**base_kw), f'(second configuration) hint_overrides={dict(pairs2)} on {node.src} vs default on {hand2.src}',
+                             dict(mode=mode, hint=node.src, overrides=dict(pairs2), by_hand=hand2.src, after_overrides=dict(pairs)), hints.CX0,
+                             hand2.src != node.src)
+                    run_pair(node, hand, cs_opt, cs_hand, '(first configuration again) ' + desc, dict(witness, after_overrides=dict(pairs2)), cx_opt, changed)
+                except Exception:   # noqa
+                    W.count('override.second_configuration_not_buildable')
 
     W.need('comparisons', 3000)
     W.need('tower.pairs_where_rewriting_changed_hint', 50)
